@@ -634,15 +634,34 @@ def readLeafArr (S : Schema) (T : Txt) (ty : Ty) (cur : Val) : Json → Option V
   | .anil | .null => some cur
   | _ => none
 
-/-- `ReadObjectCB` of message `m` into `acc` (members in document order; unknown members skipped) -/
+/-- the number scanner of jsoniter's strict `Iterator.Skip` (`iter_skip_strict.go`, `skipNumber`): `trySkipNumber` walks the
+characters after the first one and accepts digits and a dot followed by a digit; at any other character before the terminator
+(for a number literal of a well-formed document: an exponent mark) it gives up and the literal is READ with `ReadFloat64` — whose
+slow path is `strconv.ParseFloat`, so an exponent literal beyond the float64 range (`1e400`) makes the skip, and with it the
+whole document, fail even though the member is unknown to the reader.  (The second attempt `ReadBigFloat` starts after the
+already consumed literal and always reports "invalid number".)  A literal of one character also takes the `ReadFloat64` path,
+which accepts a single digit. -/
+def skipNeedsFloat (t : List Nat) : Bool :=
+  (t.drop 1).any (fun c => !((48 ≤ c && c ≤ 57) || c == 46))
+
+/-- `iter.Skip()` on a value of a well-formed document succeeds: strings, literals, and the brackets cannot fail (the lexer
+has accepted them); numbers as `skipNeedsFloat` says, in every nesting (`skipObject` / `skipArray` call `Skip` per value) -/
+def skipOk (T : Txt) : Json → Bool
+  | .num t => if skipNeedsFloat t then (T.fparse t).isSome else true
+  | .acons h t => skipOk T h && skipOk T t
+  | .ocons _ v t => skipOk T v && skipOk T t
+  | _ => true
+
+/-- `ReadObjectCB` of message `m` into `acc` (members in document order; unknown members skipped with `iter.Skip()`, which still
+validates what it skips: `skipOk`) -/
 def fromJ (S : Schema) (T : Txt) (D : List Val) (m : Nat) (acc : Val) (j : Json) : Option Val :=
   match j with
   | .onil | .null => some acc
   | .ocons k v tl =>
     let keys := ((S.msgs[m]?).map (·.jsonKeys)).getD []
-    if !(keys.any (fun s => str s == k)) then fromJ S T D m acc tl
+    if !(keys.any (fun s => str s == k)) then (if skipOk T v then fromJ S T D m acc tl else none)
     else match findKey (S.slots m) 0 k with
-      | none => fromJ S T D m acc tl
+      | none => if skipOk T v then fromJ S T D m acc tl else none
       | some hit =>
         let cur := Val.get acc hit.idx
         match hit.f.ty with
